@@ -83,11 +83,32 @@ def clenshaw_rules(run, db):
         pre = list(stores)
         del stores[:]
         fr.env[node.target.id] = dom.sym('n')
+        # scalars carried from one pass to the next (a coefficient fetched for one order and used by the next): induction over the
+        # sweep.  The pass is run with each of them a fresh symbol; what it leaves behind, as a function of the index, is what the next
+        # pass (index n -/+ 1) starts with -- provided the value before the loop is that function at the index before the first.
+        from .common import loop_carried, descending_sweep
+        n = Rat(R.atom('n'))
+        carried = {c_: dom.rat(fr.env[c_]) for c_ in sorted(loop_carried(node)) if c_ in fr.env and dom.rat(fr.env[c_]) is not None}
+        for c_ in carried:
+            fr.env[c_] = dom.sym('carried_' + c_)
         it.exec_block(node.body, fr)
         if len(stores) != 1:
             raise AnalysisError('%s: expected one store in the recurrence step' % qual)
         g_tgt, g_idx, g_val, g_node, _ = stores[0]
-        n = Rat(R.atom('n'))
+        if carried:
+            sweep = descending_sweep(it, dom, node.iter, fr)
+            if sweep is None:
+                raise AnalysisError('%s: the sweep carries %s from pass to pass and is not a descending range' % (qual, sorted(carried)))
+            first = sweep[0]
+            subs = {}
+            for c_, entry in carried.items():
+                post = dom.rat(fr.env.get(c_))
+                if post is None or any(a_.startswith('carried_') for a_ in post.atoms()):
+                    raise AnalysisError('%s: what the pass leaves in `%s` is not a function of the index alone' % (qual, c_))
+                if not (entry == post.subs({'n': first + 1})):
+                    raise AnalysisError('%s: `%s` before the sweep (%s) is not what a pass at the index above the first would leave (%s)' % (qual, c_, entry.key(), post.subs({'n': first + 1}).key()))
+                subs['carried_' + c_] = post.subs({'n': n + 1})
+            g_val = g_val.subs(subs) if g_val is not None else None
         from .common import degree_local
         M = dom.rat(fr.env[degree_local(getattr(fr, 'fi', None) or f)])
         run.check(g_idx is not None and g_idx == n, 'C10.clenshaw', f.qual, 'step index', 'the step stores alphas[n]', 'the recurrence step stores index %s' % (g_idx.key() if g_idx is not None else '?'), f.loc(g_node))
